@@ -469,6 +469,22 @@ Definition check_C07_exact (x : gctx) (calls : list call) : bool :=
          end
        end.
 
+(* a scale-up the scan decides on is acted on: when, after the untaints that succeeded, nodes are still missing and the clamp
+   leaves room, the journal shows the cloud request — or, in fleet mode, at least the describe call it starts with *)
+Definition attempted_increase (calls : list call) : bool :=
+  existsb (fun c => is_cloud_increase c || match c with CA (ADescribeAsg _ _) => true | _ => false end) calls.
+
+Definition check_up_attempted (x : gctx) (calls : list call) : bool :=
+  if x_dry x then true
+  else match need_of x, x_asg x with
+       | Some N, Some a =>
+         let before := calls_before_increase calls in
+         let rest := N - counted_untainted x before in
+         let d := a_desired a - ok_terminations before in
+         if (0 <? rest) && (0 <? nodes_to_add rest d (Z.min (x_max x) (a_max a))) then attempted_increase calls else true
+       | _, _ => true
+       end.
+
 (* ---------- well-formed views: node names are unique (a Kubernetes invariant the nodupb-style claims rest on) ---------- *)
 Definition wf_ctx (x : gctx) : bool := nodupb (map n_name (x_nodes x)).
 
